@@ -64,6 +64,15 @@ type C09Params struct {
 	// Background operation racing with the LAST client ("evict": evictIdleDnsForwarders(now), "retire":
 	// ResetDnsForwarders()). With "evict" every client but the last runs first, then the idle TTL passes.
 	Background string
+	// After: a retirement route taken sequentially once every client is done ("evict": the idle TTL passes, then
+	// evictIdleDnsForwarders(now)). Every scenario ends with retire-all (ResetDnsForwarders) + quiescence anyway.
+	After string
+	// Script forces the behaviour of the first upstream exchanges (no environment choice for them): histories in
+	// which a given fault precedes a retirement are then part of the default schedule.
+	Script []string
+	// Chain: the upstream's correct answers list the address record of the CNAME target first, then the CNAME of
+	// the queried name (Answer[0] is not owned by the query name).
+	Chain bool
 	// Upstream behaviours enabled (names, choice 0 = "ok" is always first). Empty = all of the layer.
 	Behaviours []string
 	MaxSteps   int
@@ -128,9 +137,11 @@ func c9RRFor(rr dnsmessage.RR) c9Q {
 	switch x := rr.(type) {
 	case *dnsmessage.A:
 		ip := x.A.To4()
-		if ip != nil && ip[0] == 10 && ip[1] == 9 && ip[3] == 1 && int(ip[2]) >= 1 && int(ip[2]) <= len(c9Names) {
+		if ip != nil && ip[0] == 10 && ip[1] == 9 && (ip[3] == 1 || ip[3] == 2) && int(ip[2]) >= 1 && int(ip[2]) <= len(c9Names) {
 			return c9Q{c9Names[ip[2]-1], dnsmessage.TypeA}
 		}
+	case *dnsmessage.CNAME:
+		return c9ChainTargetQ(x.Target)
 	case *dnsmessage.AAAA:
 		ip := x.AAAA.To16()
 		if ip != nil && ip[0] == 0xfd && ip[1] == 0x09 && ip[15] == 28 && int(ip[14]) >= 1 && int(ip[14]) <= len(c9Names) {
@@ -147,7 +158,18 @@ func c9RRFor(rr dnsmessage.RR) c9Q {
 // c9RRAnswers: rr is an answer to q (owner name, type and the generation tag all agree).
 func c9RRAnswers(rr dnsmessage.RR, q c9Q) bool {
 	h := rr.Header()
-	return strings.EqualFold(h.Name, q.name) && h.Rrtype == q.qtype && c9RRFor(rr) == q
+	if c9RRFor(rr) != q {
+		return false
+	}
+	switch x := rr.(type) {
+	case *dnsmessage.CNAME: // chain-form answer: the alias record is owned by the queried name
+		return strings.EqualFold(h.Name, q.name)
+	case *dnsmessage.A:
+		if ip := x.A.To4(); ip != nil && ip[3] == 2 { // chain-form answer: the address record is owned by the target
+			return strings.EqualFold(h.Name, c9ChainTarget(q)) && q.qtype == dnsmessage.TypeA
+		}
+	}
+	return strings.EqualFold(h.Name, q.name) && h.Rrtype == q.qtype
 }
 
 func c9Answer(id uint16, q dnsmessage.Question) *dnsmessage.Msg {
@@ -158,7 +180,29 @@ func c9Answer(id uint16, q dnsmessage.Question) *dnsmessage.Msg {
 	m.RecursionAvailable = true
 	m.Question = []dnsmessage.Question{q}
 	m.Answer = []dnsmessage.RR{c9TagRR(q)}
+	if c9Cur != nil && c9Cur.p.Chain && q.Qtype == dnsmessage.TypeA {
+		// address record of the target first, then the CNAME of the queried name
+		tgt := c9ChainTarget(c9QOf(q))
+		i := byte(c9NameIdx(q.Name) + 1)
+		m.Answer = []dnsmessage.RR{
+			&dnsmessage.A{Hdr: dnsmessage.RR_Header{Name: tgt, Rrtype: dnsmessage.TypeA, Class: dnsmessage.ClassINET, Ttl: 300}, A: net.IPv4(10, 9, i, 2).To4()},
+			&dnsmessage.CNAME{Hdr: dnsmessage.RR_Header{Name: q.Name, Rrtype: dnsmessage.TypeCNAME, Class: dnsmessage.ClassINET, Ttl: 300}, Target: tgt},
+		}
+	}
 	return m
+}
+
+// c9ChainTarget: the CNAME target the upstream uses in chain-form answers to q ("t<name index>-<qtype>.c9.test.").
+func c9ChainTarget(q c9Q) string {
+	return "t" + strconv.Itoa(c9NameIdx(q.name)+1) + "-" + strconv.Itoa(int(q.qtype)) + ".c9.test."
+}
+
+func c9ChainTargetQ(name string) c9Q {
+	var i, t int
+	if n, err := fmt.Sscanf(strings.ToLower(name), "t%d-%d.c9.test.", &i, &t); err != nil || n != 2 || i < 1 || i > len(c9Names) {
+		return c9Q{}
+	}
+	return c9Q{c9Names[i-1], uint16(t)}
 }
 
 // c9Foreign: another question of the harness alphabet (kind "name": same type, next name; "type": same name, A<->AAAA).
@@ -222,6 +266,7 @@ type c9Spy struct {
 	closes         int
 	closedInFlight bool
 	usedAfterClose bool
+	closesAtRetire int // Close calls seen once every forwarder had been retired and nothing was in flight
 }
 
 type c9CacheSnap struct {
@@ -244,6 +289,7 @@ type c9Env struct {
 	bgDone     bool
 	finished   bool
 	behaviours []string
+	scriptPos  int
 	dialer     *dialer.Dialer
 	setupErr   string
 }
@@ -253,6 +299,10 @@ var c9Cur *c9Env
 func (e *c9Env) next() int { e.tick++; return e.tick }
 
 func (e *c9Env) choose(what string) string {
+	if e.scriptPos < len(e.p.Script) {
+		e.scriptPos++
+		return e.p.Script[e.scriptPos-1]
+	}
 	i := vsched.Choose(len(e.behaviours), what)
 	if i != 0 {
 		e.deviations++
@@ -775,8 +825,20 @@ func C09Scenario(p *C09Params) *vsched.Scenario {
 			return true
 		})
 		vsched.Quiesce()
+		if p.After == "evict" {
+			time.Sleep(c9IdleTTL + time.Second)
+			e.ctrl.evictIdleDnsForwarders(time.Now())
+			vsched.Quiesce()
+		}
 		e.snapshotCache()
-		_ = e.ctrl.Close() // stops the janitor and the evictor, closes every forwarder still cached
+		// retire-all (what a configuration reload does) with no query in flight: from here on every forwarder
+		// ever created must have been closed
+		_ = e.ctrl.ResetDnsForwarders()
+		vsched.Quiesce()
+		for _, f := range e.spies {
+			f.closesAtRetire = f.closes
+		}
+		_ = e.ctrl.Close() // stops the janitor and the evictor
 		e.finished = true
 	}
 	return &vsched.Scenario{Name: p.Name, Body: body, Check: func(r *vsched.Result) (string, any) { return c9Check(p, r) },
@@ -895,6 +957,9 @@ func c9Check(p *C09Params, r *vsched.Result) (string, any) {
 		}
 		if f.usedAfterClose {
 			return name + " was handed a query after it had been closed", detail
+		}
+		if f.closesAtRetire != 1 {
+			return fmt.Sprintf("%s saw Close %d times by the time every forwarder had been retired and no query was in flight", name, f.closesAtRetire), detail
 		}
 		if f.closes != 1 {
 			return fmt.Sprintf("%s saw Close %d times", name, f.closes), detail
@@ -1042,7 +1107,7 @@ func c9Detail(e *c9Env) map[string]any {
 	d["upstream_exchanges"] = ex
 	var fw []string
 	for _, f := range e.spies {
-		fw = append(fw, fmt.Sprintf("fwd#%d %s uses=%d closes=%d closedInFlight=%v usedAfterClose=%v", f.id, f.l4, f.uses, f.closes, f.closedInFlight, f.usedAfterClose))
+		fw = append(fw, fmt.Sprintf("fwd#%d %s uses=%d closes=%d closesAtRetireAll=%d closedInFlight=%v usedAfterClose=%v", f.id, f.l4, f.uses, f.closes, f.closesAtRetire, f.closedInFlight, f.usedAfterClose))
 	}
 	d["forwarders"] = fw
 	var so []string
